@@ -110,7 +110,7 @@ def run(ctx):
     base_off = {r['pi']: offenders(bver, i) for i, r in enumerate(base)}
     ctx.cover['baseline_offenders'] = sorted({':'.join([o[0], o[2]]) for offs in base_off.values() for o in offs})
 
-    # ---- singles, then pairs (a pair is not charged with what its first member already broke)
+    # ---- singles, then pairs
     stats = {'applied': 0, 'not_applicable': {}, 'raised': {}, 'clean': 0, 'offending': {}, 'symbols_checked': 0, 'scopes_checked': 0}
     singles = [r for r in runs if len(r['names']) == 1]
     pairs = [r for r in runs if len(r['names']) > 1]
@@ -162,7 +162,8 @@ def run(ctx):
                                    f'--- transformed ---\n{text[:3000]}', {'prog': progs[r['pi']], 'names': r['names']})
 
     judge(singles, lambda r: base_off[r['pi']])
-    judge(pairs, lambda r: base_off[r['pi']] + single_off.get((r['pi'], r['names'][0]), []))
+    # a pair is charged only with what neither of its members produces on its own (interplay)
+    judge(pairs, lambda r: base_off[r['pi']] + [o for nm in r['names'] for o in single_off.get((r['pi'], nm), [])])
 
     ctx.cover.update(stats)
     ctx.cover['programs'] = len(progs)
@@ -184,5 +185,5 @@ def run(ctx):
         'Resolvable: derived-type components, procedure names (external procedures / intrinsics need no declaration) and '
         'chains containing a USE without ONLY are exempt; declared names are taken from declaration / import nodes, not from symbol tables',
         'ParentLink is part of "resolves through the unit\'s own scope chain": type look-ups follow scope.parent / symbol_attrs.parent',
-        'offenders already present in the untransformed IR (and, for pairs, after the first transformation alone) are exempt',
+        'offenders already present in the untransformed IR (and, for pairs, after either member applied alone) are exempt',
     ]
